@@ -326,9 +326,12 @@ def extract_pin_cite(
             # a short cite) is part of the token and must not be cut off
             extra_chars = len(prefix)
         parenthetical = process_parenthetical(m["parenthetical"])
+        # the prefix is part of the token: when it is longer than the text
+        # window (MAX_MATCH_CHARS) the match covers only the start of it,
+        # and the span must still not end before the token does
         return (
             pin_cite,
-            from_token.end + extra_chars - len(prefix),
+            max(from_token.end, from_token.end + extra_chars - len(prefix)),
             parenthetical,
         )
     return None, None, None
